@@ -170,6 +170,7 @@ func cmdCheck(args []string) int {
 	maxSteps := fs.Int("max-steps", 20000000, "interpreter steps per path")
 	unwind := fs.Int("unwind", 64, "default unwinding bound (symbolic decisions per block per frame)")
 	maxPaths := fs.Int("max-paths", 200000, "paths per harness")
+	noFailFast := fs.Bool("no-fail-fast", false, "keep exploring a harness after an unlisted violation")
 	evidenceOut := fs.String("evidence", "", "evidence file (default /verif/evidence/<id>.json)")
 	var prop string
 	if len(args) > 0 && !strings.HasPrefix(args[0], "-") {
@@ -299,10 +300,13 @@ func cmdCheck(args []string) int {
 	ex := NewExplorer(prog, ecfg, *workers, *solver, *timeout)
 	ex.thorough = *tier == "thorough"
 	ex.maxPaths = *maxPaths
+	known := loadKnown()
+	ex.failFast = !*noFailFast
+	ex.known = known
+	ex.prop = prop
 	ex.Run(runs)
 
 	// ---- verdicts ----
-	known := loadKnown()
 	exit := 0
 	inconclusive := false
 	type caseRef struct {
@@ -373,6 +377,7 @@ func cmdCheck(args []string) int {
 		GoInlined    int               `json:"go_statements_inlined"`
 		Witnesses    int               `json:"witnesses_replayed_natively"`
 		Inconclusive []string          `json:"inconclusive,omitempty"`
+		StoppedEarly string            `json:"stopped_early,omitempty"`
 		Violations   []json.RawMessage `json:"violations,omitempty"`
 	}
 	var obligs []oblig
@@ -384,7 +389,7 @@ func cmdCheck(args []string) int {
 		o := oblig{Name: h.Name, Pkg: h.Pkg, Desc: strings.TrimSpace(h.Meta.Desc), Bounds: strings.TrimSpace(h.Meta.Bounds), Outside: strings.TrimSpace(h.Meta.Outside),
 			Unwind: h.Unwind, Solver: h.Meta.Solver, Paths: h.Paths, Infeasible: h.Infeasible, PanicPaths: h.PanicPaths, Decisions: h.Decisions, MaxDepth: h.MaxDepth,
 			Queries: h.Queries, Trivial: h.Trivial, SolverS: h.SolverTime.Seconds(), Steps: h.Steps, Funcs: sortedKeys(h.Funcs), Stubs: h.Stubs,
-			Reached: sortedKeys(h.Reached), GoInlined: h.GoInlined, Inconclusive: h.Inconclusive}
+			Reached: sortedKeys(h.Reached), GoInlined: h.GoInlined, Inconclusive: h.Inconclusive, StoppedEarly: h.StoppedEarly}
 		if o.Unwind == 0 {
 			o.Unwind = *unwind
 		}
